@@ -38,3 +38,16 @@ Proof.
   intros HF Hnj Hs r Hr. rewrite (ev_sql_pql F sc HF).
   eapply split_queries_denotes_pipeline; [exact Hnj|reflexivity|exact Hs|exact Hr].
 Qed.
+
+From PQL Require Import Proofs.JoinFacts.
+
+Theorem pipeline_semantics_joins F sc source db t subqs :
+  fenv_ok F ->
+  ok (tsrc t) [] (flat_map as_names (tops t)) (flat_map table_names (tops t)) ->
+  split_queries sc [] t = Ok subqs ->
+  forall r, run_pipeline F (ev_pql F sc) source sc db t = Some r ->
+            eval_statement F (ev_sql F sc) source db subqs = Some r.
+Proof.
+  intros HF Hok Hs r Hr. rewrite (ev_sql_pql F sc HF).
+  eapply split_queries_denotes_pipeline_joins; eassumption.
+Qed.
